@@ -34,8 +34,8 @@ type c15Scn struct {
 	Choices  []int  `json:"choices,omitempty"`
 }
 
-var c15Calls = []string{"N0CALL", "n0call-10", "A", "", "with space inside", "ünï", strings.Repeat("X", 200), "LA5%NTA", "%s", "N0CALL-50%"}
-var c15Passwords = []string{"CMSTelnet", "p w", "", "ünï", strings.Repeat("p", 200), "x", "secret", "100%", "%d%v", "%"}
+var c15Calls = []string{"N0CALL", "n0call-10", "A", "", "with space inside", "ünï", strings.Repeat("X", 200), "LA5%NTA", "%s", "N0CALL-50%", "LA\n5NTA", "N0CALL"}
+var c15Passwords = []string{"CMSTelnet", "p w", "", "ünï", strings.Repeat("p", 200), "x", "secret", "100%", "%d%v", "%", "sec\nret", "secret\n"}
 
 func c15Payload(i int) []byte {
 	switch i {
